@@ -130,7 +130,8 @@ fn run(case: &Case, dir: &str) -> Verdict {
     ex.skip_fsck = true;
     // sanity: the undamaged image shows the newest state
     if let Err(iv) = ex.judge(&img, len, &[state_new], false) {
-        v.harness_error = Some(format!("undamaged image does not show the final state: {}", iv.detail));
+        // the undamaged file already reads back wrong: C01's business, nothing to claim here
+        v.aborted = Some(Violation { oracle: "contents".into(), site: "undamaged image".into(), detail: iv.detail, step: 0, in_rw_tx: false });
         return v;
     }
     let mut r = Rng::new(mix(case.seed, 0xC0DE));
